@@ -17,7 +17,7 @@
              the automaton originated (scr / str / scj tokens).  The model runs with that Identifier policy and
              checks that it is ADMISSIBLE: a Configure-Request that is not a retransmission must not repeat the
              Identifier of the previous one, and a Code-Reject must not repeat that of the previous Code-Reject
-             (RFC 1661 5.1, 5.6); otherwise it prints INADMISSIBLE:<why> in that step.  Every other observable
+             (RFC 1661 5.1, 5.6); otherwise it prints INADMISSIBLE=<why> in that step.  Every other observable
              is the model's own.  Without an implementation file the policy of /repo HEAD (f.id++ from 0) is used.
    argv[3] = variant: repaired | lns_down_unfixed (kind lns only: internal/l2tp onLCPDown does not take the NCPs
              Down - finding lns-lcp-down-ncp-down) | echo_unfixed (historical, before 1b41d89).
@@ -55,6 +55,20 @@ let show_hcall = function
   | HRej o -> "J" ^ hex_of_zbytes (serialize o)
 
 let filter_map f l = List.fold_right (fun x acc -> match f x with Some y -> y :: acc | None -> acc) l []
+(* Identifier-policy admissibility: the extracted Adm.adm_item, one fold per automaton.  [adm_feed st retx acts]
+   feeds the event marker and the actions of one step; returns the INADMISSIBLE tokens (empty when admissible). *)
+let adm_feed (st : adm ref) (retx : bool) (acts : act list) : string list =
+  let bad = ref [] in
+  let feed it = match adm_item !st it with
+    | Some a -> st := a
+    | None ->
+      bad := (match it with
+              | IAct (Scr _) -> "INADMISSIBLE=Configure-Request-Identifier-used-by-a-recent-request"
+              | _ -> "INADMISSIBLE=Code-Reject-repeats-Identifier") :: !bad in
+  feed (IEv (if retx then ETimeout else EUp));
+  List.iter (fun a -> feed (IAct a)) acts;
+  List.rev !bad
+
 let rec take k l = if k <= 0 then [] else match l with x :: r -> x :: take (k-1) r | [] -> []
 let rec split_at x = function
   | [] -> ([], None)
@@ -122,6 +136,8 @@ let () =
             if k < Array.length ch then z_of_int ch.(k)
             else z_of_int (((if Array.length ch = 0 then 0 else ch.(Array.length ch - 1)) + (k - Array.length ch) + 1) land 255) in
         let s = ref (sys_init (pick_of "L") (pick_of "I") (pick_of "V")) in
+        let adm_l = ref adm0 and adm_i = ref adm0 and adm_v = ref adm0 in
+        let adm_of = function TLcp -> adm_l | TIpcp -> adm_i | _ -> adm_v in
         let phase_of = function 0 -> PhDead | 1 -> PhEstablish | 2 -> PhAuthenticate | 3 -> PhNetwork | 4 -> PhOpen
                               | 5 -> PhTerminate | 6 -> PhLACTunnelPending | _ -> PhLACTunneled in
         let tag_of = function TLcp -> "L" | TIpcp -> "I" | TIp6 -> "V" | TNone -> "" in
@@ -131,7 +147,8 @@ let () =
           if t = TNone then [] else
           let f = get t !s in
           List.map (fun a -> tag_of t ^ "." ^ a)
-            (filter_map (show_act false (z_of_int (kindn_of t)) f.hlog edata) (outs f)) in
+            (filter_map (show_act false (z_of_int (kindn_of t)) f.hlog edata) (outs f))
+          @ adm_feed (adm_of t) false (outs f) in
         let zhex l = hex_of_zbytes l in
         let outl = List.map (fun op ->
           let (evs, err) =
@@ -208,6 +225,8 @@ let () =
         let c = { s_cfg = default_cfg; has_v4 = (pool <> "0"); echo_fixed = echo_fixed; lns = is_lns;
                   lns_down_fixed = lns_down_fixed } in
         let s = ref (sess_init (pick_of "L") (pick_of "I") (pick_of "V")) in
+        let adm_l = ref adm0 and adm_i = ref adm0 and adm_v = ref adm0 in
+        let adm_of = function TLcp -> adm_l | TIpcp -> adm_i | _ -> adm_v in
         let tag_of = function TLcp -> "L" | TIpcp -> "I" | TIp6 -> "V" | TNone -> "" in
         let phase_num = function PhDead -> 0 | PhEstablish -> 1 | PhAuthenticate -> 2 | PhNetwork -> 3 | PhOpen -> 4
                                | PhTerminate -> 5 | PhLACTunnelPending -> 6 | PhLACTunneled -> 7 in
@@ -250,7 +269,11 @@ let () =
             end else failwith ("bad op " ^ op) in
           let (s1, outs1) = sess_step c v !s xop in
           s := s1;
-          let evs = filter_map show outs1 in
+          let tmo = match xop with XTimeout t -> Some t | _ -> None in
+          let inadm = List.concat_map (fun t ->
+              let acts = filter_map (function OFsm (t', a) when t' = t -> Some a | _ -> None) outs1 in
+              if acts = [] then [] else adm_feed (adm_of t) (tmo = Some t) acts) [TLcp; TIpcp; TIp6] in
+          let evs = filter_map show outs1 @ inadm in
           let b x = if x then 1 else 0 in
           Printf.sprintf "%d/%d/%d/%d/%d%d%d:%s" (phase_num s1.ph) (int_of_z (st_num s1.sy.s_lcp.st0))
             (int_of_z (st_num s1.sy.s_ipcp.st0)) (int_of_z (st_num s1.sy.s_ip6.st0))
@@ -268,7 +291,7 @@ let () =
                   maxTerm = (if mt = "d" then default_cfg.maxTerm else z_of_int (int_of_string mt));
                   lcp = is_lcp } in
         let f = ref (init_id (z_of_int id0) pick) in
-        let scr_sent = ref false and last_scj = ref (-1) in
+        let adm_st = ref adm0 in
         let all_items = ref [] in
         (* one event: returns (obs string, action strings, handler-call strings) *)
         let admin_op op =       (* Restore() / Kill() / stale timer fire / exported Timeout(): not events of the automaton *)
@@ -279,10 +302,11 @@ let () =
             | _ -> raw_timeout !f in         (* Y: Timeout() runs the timeout transition unconditionally *)
           let fy = f' in
           f := f';
+          let inadm_admin = adm_feed adm_st (op = "Y") (outs fy) in
           all_items := !all_items @ List.map (fun a -> IAct a) (outs fy);
           let (((((s, r), a), l), i), fl) = obs f' in
           (Printf.sprintf "%d/%d/%d/%d/%d" (int_of_z s) (int_of_z r) (if a then 1 else 0)
-             (int_of_z l) (int_of_z fl), filter_map (show_act mock kindn f'.hlog []) (outs fy), []) in
+             (int_of_z l) (int_of_z fl), filter_map (show_act mock kindn f'.hlog []) (outs fy) @ inadm_admin, []) in
         let rec do_op ?last op =
           if List.mem op ["R"; "K"; "X"; "Y"] then admin_op op else
           let e = match op with
@@ -306,17 +330,8 @@ let () =
           let bug = (vname = "repaired") &&
                     not (conformsb c !f e f' && ids_okb !f e (outs f') &&
                          int_of_z f'.restart = int_of_z (counter_after c !f e (outs f'))) in
-          (* admissibility of the Identifier choices made in this step *)
-          let inadm = ref [] in
-          List.iter (function
-            | Scr i ->
-              if !scr_sent && e <> ETimeout && int_of_z i = int_of_z (!f).lastReq then
-                inadm := "INADMISSIBLE:new-Configure-Request-repeats-Identifier" :: !inadm;
-              scr_sent := true
-            | Scj (i, _, _) ->
-              if int_of_z i = !last_scj then inadm := "INADMISSIBLE:Code-Reject-repeats-Identifier" :: !inadm;
-              last_scj := int_of_z i
-            | _ -> ()) (outs f');
+          (* admissibility of the Identifier choices made in this step (extracted predicate) *)
+          let inadm = ref (adm_feed adm_st (e = ETimeout) (outs f')) in
           let ncalls = List.length f'.hlog - List.length (!f).hlog in
           let hc = List.rev_map show_hcall (take ncalls f'.hlog) in
           f := f';
